@@ -20,7 +20,7 @@ def main() -> None:
                      ", ".join(res.get("detected_by", [])) or "-", checks))
     out = ["# Seeded property-breaking changes", "",
            "One sub-agent per property and round, given only the property record and a private scratch worktree (nothing from /verif).",
-           "Round 1 = ids -1..-3 (20 properties); round 2 = ids -4, -5 (C01-C06, C08-C10, C15: changes asked to avoid the obvious mechanism).",
+           "Round 1 = ids -1..-3 (20 properties); round 2 = ids -4, -5 (all 20 properties: changes asked to avoid the obvious mechanism). Undetected changes carry a note in result.json and are discussed in DESIGN.md 14.5.",
            "Each delivery (`patch.diff`, `demo.py`, `meta.json`) was confirmed by `tools_seeded.py` on scratch copies: the patch applies to /repo's HEAD,",
            "the test suite gives the baseline result, `demo.py` exits 0 on the unchanged sources and 1 on the patched ones; the named checks were then",
            "run (quick tier) against the patched copy. `patch.as-delivered.diff` = the delivery before it was rebased onto later repo fixes.", "",
